@@ -85,9 +85,6 @@ Definition ko_step (root : config) (c : config) (v : node) : config :=
   | _ => fold_left (fun c n => cfg_set c n v) (names_of root (fst v)) c
   end.
 
-Lemma keep_old_fold root newv : keep_old root newv = fold_left (ko_step root) newv [].
-Proof. reflexivity. Qed.
-
 Lemma ko_step_get root c v m :
   cfg_get (ko_step root c v) m
   = if (match fst v with [] => false | _ => true end) && existsb (str_eqb m) (names_of root (fst v))
@@ -149,6 +146,260 @@ Qed.
 Lemma keep_old_sorted root newv : forall acc, csorted acc -> csorted (fold_left (ko_step root) newv acc).
 Proof. induction newv; simpl; auto. intros. apply IHnewv. now apply ko_step_sorted. Qed.
 
+(** ** the [highest] map *)
+Lemma sem_cmp_refl v : sem_cmp v v = Eq.
+Proof. destruct v; simpl; auto. apply (good_refl _ good_sv). Qed.
+
+Lemma sem_cmp_vlt a b x y : a = VSem x -> b = VSem y -> is_lt (sem_cmp a b) = vlt a b.
+Proof. intros; subst; reflexivity. Qed.
+
+(** [highest_from] never invents a version *)
+Lemma highest_from_in p l : forall cur h,
+  highest_from p l cur = Some h -> cur = Some h \/ In (p, h) l.
+Proof.
+  induction l as [|[q w] l IH]; simpl; intros cur h H; auto.
+  apply IH in H. destruct H as [H|H]; [|auto].
+  destruct (str_eqb_spec q p); [subst q|auto].
+  destruct cur as [c|].
+  - destruct (is_lt (sem_cmp c w)); auto. inversion H; subst. auto.
+  - inversion H; subst. auto.
+Qed.
+
+Lemma highest_from_some p l : forall cur, cur <> None -> highest_from p l cur <> None.
+Proof.
+  induction l as [|[q w] l IH]; simpl; intros cur H; auto. apply IH.
+  destruct (str_eqb q p); auto. destruct cur as [c|]; [|discriminate].
+  destruct (is_lt (sem_cmp c w)); discriminate.
+Qed.
+
+Lemma highest_from_present p l v : In (p, v) l -> forall cur, highest_from p l cur <> None.
+Proof.
+  induction l as [|[q w] l IH]; simpl; [tauto|]. intros [H|H] cur.
+  - inversion H; subst. rewrite str_eqb_refl. apply highest_from_some.
+    destruct cur as [c|]; [destruct (is_lt (sem_cmp c v))|]; discriminate.
+  - now apply IH.
+Qed.
+
+(** with semantic versions throughout, the result is an upper bound of [cur] and of every entry of the path *)
+Lemma highest_from_ge p l : (forall x, In x l -> exists s, snd x = VSem s) ->
+  forall cur h, (forall c, cur = Some c -> exists s, c = VSem s) ->
+  highest_from p l cur = Some h ->
+  (forall c, cur = Some c -> vle c h = true) /\ (forall v, In (p, v) l -> vle v h = true).
+Proof.
+  induction l as [|[q w] l IH]; simpl; intros WF cur h WC H.
+  - subst cur. split; [intros c E; inversion E; apply vle_refl | tauto].
+  - assert (WF' : forall x, In x l -> exists s, snd x = VSem s) by (intros; apply WF; auto).
+    destruct (WF (q, w) (or_introl eq_refl)) as [sw Esw]. simpl in Esw.
+    destruct (str_eqb_spec q p) as [E|NE].
+    + subst q. destruct cur as [c|].
+      * destruct (WC c eq_refl) as [sc Esc].
+        rewrite (sem_cmp_vlt c w sc sw Esc Esw) in H.
+        destruct (vlt c w) eqn:L.
+        -- destruct (IH WF' (Some w) h) as [A B]; auto. { intros c0 E0; inversion E0; subst; eauto. }
+           split.
+           ++ intros c0 E0; inversion E0; subst c0. eapply vle_trans; [apply vlt_vle; exact L | now apply A].
+           ++ intros v [Hv|Hv]; [inversion Hv; subst; now apply A | now apply B].
+        -- destruct (IH WF' (Some c) h) as [A B]; auto.
+           split; auto. intros v [Hv|Hv]; [|now apply B]. inversion Hv; subst v.
+           eapply vle_trans; [|apply (A c eq_refl)]. rewrite vle_iff. now rewrite L.
+      * destruct (IH WF' (Some w) h) as [A B]; auto. { intros c0 E0; inversion E0; subst; eauto. }
+        split; [discriminate|]. intros v [Hv|Hv]; [inversion Hv; subst; now apply A | now apply B].
+    + destruct (IH WF' cur h WC H) as [A B]. split; auto.
+      intros v [Hv|Hv]; [inversion Hv; congruence | now apply B].
+Qed.
+
+(** the characterisation: the highest version of [p] in [l] is an entry of [p] that no entry of [p] exceeds *)
+Theorem highest_spec p l h : (forall x, In x l -> exists s, snd x = VSem s) ->
+  highest_from p l None = Some h <-> (In (p, h) l /\ forall v, In (p, v) l -> vle v h = true).
+Proof.
+  intros WF. split.
+  - intros H. split.
+    + apply highest_from_in in H. destruct H; [discriminate|auto].
+    + apply (highest_from_ge p l WF None h); [discriminate|auto].
+  - intros [Hin Hmax]. destruct (highest_from p l None) as [h'|] eqn:E.
+    + f_equal. apply vle_antisym.
+      * pose proof E as E'. apply highest_from_in in E'. destruct E' as [E'|E']; [discriminate|]. now apply Hmax.
+      * destruct (highest_from_ge p l WF None h') as [_ B]; [discriminate|auto|]. now apply B.
+    + exfalso. eapply highest_from_present; eauto.
+Qed.
+
+Lemma highest_of_in l p v : In (p, v) l -> In (p, highest_of l p) l.
+Proof.
+  intros H. unfold highest_of. destruct (highest_from p l None) as [h|] eqn:E.
+  - apply highest_from_in in E. destruct E; [discriminate|auto].
+  - exfalso. eapply highest_from_present; eauto.
+Qed.
+
+(** one version per path: that version *)
+Lemma highest_from_fun p w l : forall cur,
+  (forall x, In x l -> fst x = p -> snd x = w) -> (cur = None \/ cur = Some w) ->
+  (cur = None -> exists x, In x l /\ fst x = p) ->
+  highest_from p l cur = Some w.
+Proof.
+  induction l as [|[q u] l IH]; simpl; intros cur F C N.
+  - destruct C as [C|C]; auto. destruct (N C) as (x & [] & _).
+  - destruct (str_eqb_spec q p) as [E|NE].
+    + subst q. assert (u = w) by (apply (F (p, u)); auto). subst u.
+      apply IH; auto.
+      * right. destruct C as [C|C]; subst cur; auto. now rewrite sem_cmp_refl.
+      * intros X. destruct C as [C|C]; subst cur; [discriminate|]. rewrite sem_cmp_refl in X. discriminate.
+    + apply IH; auto. intros X. destruct (N X) as (x & [Hx|Hx] & Ex); [subst x; simpl in Ex; congruence|eauto].
+Qed.
+
+Lemma nodup_path_fun l : NoDup (map fst l) -> path_fun l.
+Proof.
+  induction l as [|a l IH]; simpl; intros ND x y Hx Hy E; [destruct Hx|]. inversion ND; subst.
+  destruct Hx as [Hx|Hx], Hy as [Hy|Hy]; subst; auto.
+  - exfalso. apply H1. rewrite E. now apply in_map.
+  - exfalso. apply H1. rewrite <- E. now apply in_map.
+  - apply IH; auto.
+Qed.
+
+Lemma highest_of_fun l p v : path_fun l -> In (p, v) l -> highest_of l p = v.
+Proof.
+  intros PF H. unfold highest_of. rewrite (highest_from_fun p v l None); auto.
+  - intros x Hx Ex. assert (x = (p, v)) by (apply PF; auto). now subst x.
+  - intros _. exists (p, v). auto.
+Qed.
+
+(** ** the first loop of transformReqs for an arbitrary computed list *)
+Definition kstep (root : config) (g : str -> str -> node) (c : config) (v : node) : config :=
+  match fst v with
+  | [] => c
+  | _ => fold_left (fun c n => cfg_set c n (g (fst v) n)) (names_of root (fst v)) c
+  end.
+
+Lemma keep_old_kfold root newv : keep_old root newv = fold_left (kstep root (keep_name root newv)) newv [].
+Proof. reflexivity. Qed.
+
+Lemma fold_names_get_gen names (h : str -> node) : forall c m,
+  cfg_get (fold_left (fun c n => cfg_set c n (h n)) names c) m
+  = if existsb (str_eqb m) names then Some (h m) else cfg_get c m.
+Proof.
+  induction names as [|n names IH]; intros c m; simpl; auto.
+  rewrite IH, cfg_get_set. rewrite (str_eqb_sym m n). destruct (str_eqb_spec n m); simpl; auto.
+  subst. destruct (existsb (str_eqb m) names); auto.
+Qed.
+
+Lemma fold_names_sorted_gen names (h : str -> node) :
+  forall c, csorted c -> csorted (fold_left (fun c n => cfg_set c n (h n)) names c).
+Proof. induction names; simpl; auto. intros. apply IHnames. now apply cfg_set_sorted. Qed.
+
+Lemma kstep_get root g c v m :
+  cfg_get (kstep root g c v) m
+  = if (match fst v with [] => false | _ => true end) && existsb (str_eqb m) (names_of root (fst v))
+    then Some (g (fst v) m) else cfg_get c m.
+Proof.
+  unfold kstep. destruct (fst v) as [|a0 p0] eqn:E; simpl; auto. now rewrite (fold_names_get_gen _ (g (a0 :: p0))).
+Qed.
+
+Lemma kstep_sorted root g c v : csorted c -> csorted (kstep root g c v).
+Proof. unfold kstep. destruct (fst v) as [|a0 p0]; auto. apply (fold_names_sorted_gen _ (g (a0 :: p0))). Qed.
+
+Lemma kfold_sorted root g l : forall acc, csorted acc -> csorted (fold_left (kstep root g) l acc).
+Proof. induction l; simpl; auto. intros. apply IHl. now apply kstep_sorted. Qed.
+
+Lemma keep_old_csorted root newv : csorted (keep_old root newv).
+Proof. rewrite keep_old_kfold. apply kfold_sorted. constructor. Qed.
+
+Definition names_n (root : config) (n : str) (y : node) : bool :=
+  (match fst y with [] => false | _ => true end) && existsb (str_eqb n) (names_of root (fst y)).
+
+Lemma names_n_true root n y : names_n root n y = true <-> (fst y <> [] /\ In n (names_of root (fst y))).
+Proof.
+  unfold names_n. rewrite andb_true_iff, existsb_str_In. split; intros [A B]; split; auto.
+  - destruct (fst y); [discriminate | intro; discriminate].
+  - destruct (fst y); [contradiction | reflexivity].
+Qed.
+
+(** a name is bound iff some entry of the list has its path; the value depends on the path and the name only *)
+Lemma kfold_spec root g : names_unique root -> forall l acc n x,
+  cfg_get (fold_left (kstep root g) l acc) n = Some x <->
+  ((exists v, In v l /\ fst v <> [] /\ In n (names_of root (fst v)) /\ x = g (fst v) n) \/
+   (cfg_get acc n = Some x /\ forall y, In y l -> fst y <> [] -> ~ In n (names_of root (fst y)))).
+Proof.
+  intros NU. induction l as [|v l IH]; intros acc n x; simpl.
+  - split; [intros H; right; split; auto | intros [(v & [] & _)|[H _]]; auto].
+  - rewrite IH. rewrite kstep_get. fold (names_n root n v). split.
+    + intros [(y & Hy & A & B & C)|(A & B)].
+      * left. exists y. splits; auto.
+      * destruct (names_n root n v) eqn:Ev.
+        -- apply names_n_true in Ev. destruct Ev as [E1 E2]. inversion A; subst x.
+           left. exists v. splits; auto.
+        -- right. split; auto. intros y [Hy|Hy] Hne Hn; [subst y|eapply B; eauto].
+           assert (names_n root n v = true) by (apply names_n_true; auto). congruence.
+    + intros [(y & [Hy|Hy] & A & B & C)|(A & B)].
+      * subst y. destruct (existsb (names_n root n) l) eqn:EX.
+        -- apply existsb_exists in EX. destruct EX as (z & Hz & Ez). apply names_n_true in Ez. destruct Ez as [Z1 Z2].
+           left. exists z. splits; auto. rewrite C. f_equal. eapply names_of_path; eauto.
+        -- right. split.
+           ++ assert (names_n root n v = true) as -> by (apply names_n_true; auto). now rewrite C.
+           ++ intros z Hz Z1 Z2. assert (names_n root n z = true) by (apply names_n_true; auto).
+              assert (existsb (names_n root n) l = true) by (apply existsb_exists; eauto). congruence.
+      * left. exists y. splits; auto.
+      * right. split.
+        -- destruct (names_n root n v) eqn:Ev; auto. apply names_n_true in Ev. destruct Ev. exfalso. eapply (B v); eauto.
+        -- intros; eapply B; eauto.
+Qed.
+
+Lemma nodup_In_get (c : config) n x : NoDup (map fst c) -> In (n, x) c -> cfg_get c n = Some x.
+Proof.
+  induction c as [|[k w] c IH]; simpl; [tauto|]. intros ND [H|H]; inversion ND; subst.
+  - inversion H; subst. now rewrite str_eqb_refl.
+  - destruct (str_eqb_spec k n); [|auto]. subst. exfalso. apply H2. now apply (in_map fst _ (n, x)).
+Qed.
+
+Lemma cfg_get_In (c : config) n x : cfg_get c n = Some x -> In (n, x) c.
+Proof.
+  induction c as [|[k w] c IH]; simpl; [discriminate|].
+  destruct (str_eqb_spec k n); [intros H; inversion H; subst; auto | auto].
+Qed.
+
+Lemma names_of_entry root n p : In n (names_of root p) -> exists v, In (n, (p, v)) root.
+Proof.
+  unfold names_of. intros H. apply in_map_iff in H. destruct H as ([n' [q v]] & E & F). simpl in E. subst n'.
+  apply filter_In in F. destruct F as [F G]. simpl in G. destruct (str_eqb_spec q p); [subst; eauto | discriminate].
+Qed.
+
+Lemma mem_true n l : mem n l = true <-> In n l.
+Proof. apply mem_In. Qed.
+
+(** what [keep_name] yields for an old name of the path *)
+Lemma keep_name_cases root newv n p v0 : names_unique root -> In (n, (p, v0)) root ->
+  (In (p, v0) newv /\ keep_name root newv p n = (p, v0)) \/
+  (~ In (p, v0) newv /\ keep_name root newv p n = (p, highest_of newv p)).
+Proof.
+  intros NU H. unfold keep_name. rewrite (nodup_In_get root n (p, v0) NU H).
+  destruct (mem (p, v0) newv) eqn:M.
+  - left. split; auto. now apply mem_In.
+  - right. split; auto. now apply mem_false.
+Qed.
+
+(** the computed list holds one version per path: every old name of a path is bound to that entry *)
+Lemma keep_name_fun root newv n v : names_unique root -> path_fun newv -> In v newv ->
+  In n (names_of root (fst v)) -> keep_name root newv (fst v) n = v.
+Proof.
+  intros NU PF Hv Hn. apply names_of_entry in Hn. destruct Hn as (v0 & Hn). destruct v as [p w]. simpl in *.
+  destruct (keep_name_cases root newv n p v0 NU Hn) as [[A ->]|[A ->]].
+  - apply (PF (p, v0) (p, w)); auto.
+  - f_equal. now apply highest_of_fun.
+Qed.
+
+Lemma fold_left_ext_in {A B} (f f' : A -> B -> A) l : (forall a b, In b l -> f a b = f' a b) ->
+  forall acc, fold_left f l acc = fold_left f' l acc.
+Proof.
+  induction l as [|b l IH]; simpl; intros H acc; auto. rewrite H by auto. apply IH. intros; apply H; auto.
+Qed.
+
+(** ... so the loop is the plain "bind every old name of the entry's path to the entry" loop *)
+Lemma keep_old_fold root newv : names_unique root -> NoDup (map fst newv) ->
+  keep_old root newv = fold_left (ko_step root) newv [].
+Proof.
+  intros NU ND. rewrite keep_old_kfold. apply fold_left_ext_in. intros c v Hv.
+  unfold kstep, ko_step. destruct (fst v) as [|a0 p0] eqn:E; auto. rewrite <- E.
+  apply fold_left_ext_in. intros c0 n Hn. f_equal. apply keep_name_fun; auto. now apply nodup_path_fun.
+Qed.
+
 Lemma fresh_name_free fuel : forall name n suffix c r, fresh_name fuel name n suffix c = Some r -> cfg_get c r = None.
 Proof.
   induction fuel as [|f IH]; simpl; intros; [discriminate|].
@@ -208,9 +459,9 @@ Theorem transform_spec U root (tx : list node -> outcome (list node)) c' newv :
              exists n, cfg_get c' n = Some x /\ cfg_get (keep_old root newv) n = None).
 Proof.
   intros NU ND NE Etx H. unfold transform_reqs in H. rewrite Etx in H. simpl in H.
-  assert (S0 : csorted (keep_old root newv)) by (rewrite keep_old_fold; apply keep_old_sorted; constructor).
+  assert (S0 : csorted (keep_old root newv)) by apply keep_old_csorted.
   destruct (add_fresh_spec U root newv _ _ H S0) as (A & B & C & D).
-  pose proof (keep_old_spec root newv NU ND []) as K. rewrite <- keep_old_fold in K.
+  pose proof (keep_old_spec root newv NU ND []) as K. rewrite <- (keep_old_fold root newv NU ND) in K.
   splits; auto.
   - intros x. split.
     + intros Hx. apply in_map_iff in Hx. destruct Hx as ([n y] & E & Hy). simpl in E. subst y.
@@ -223,4 +474,136 @@ Proof.
       apply (cfg_In_get c' n x A) in Hn. now apply (in_map snd _ (n, x)).
   - intros n p v0 v Hr Hv. apply B. apply K. left. splits; auto; try apply (NE (p, v) Hv).
     simpl. eapply in_names_of; eauto.
+Qed.
+
+(** ** the same for ANY computed list (paths may repeat - a root that names one path under several names with
+    different versions, handed back unmerged by get's early returns):
+    nothing is invented; every old name of a path that remains is bound to its own old requirement when the list
+    holds exactly that, else to the path at the highest version the list holds for it; an old requirement that is
+    handed back stays; a requirement on a new path gets a fresh name *)
+Theorem transform_spec_any U root (tx : list node -> outcome (list node)) c' newv :
+  names_unique root -> (forall x, In x newv -> fst x <> []) ->
+  tx (map snd root) = Ok newv -> transform_reqs U root tx = Ok c' ->
+  csorted c' /\
+  incl (map snd c') newv /\
+  (forall n p v0, In (n, (p, v0)) root -> In p (map fst newv) ->
+                  cfg_get c' n = Some (if mem (p, v0) newv then (p, v0) else (p, highest_of newv p))) /\
+  (forall n x, In (n, x) root -> In x newv -> cfg_get c' n = Some x) /\
+  (forall x, In x newv -> names_of root (fst x) = [] ->
+             exists n, cfg_get c' n = Some x /\ cfg_get (keep_old root newv) n = None).
+Proof.
+  intros NU NE Etx H. unfold transform_reqs in H. rewrite Etx in H. simpl in H.
+  pose proof (keep_old_csorted root newv) as S0.
+  destruct (add_fresh_spec U root newv _ _ H S0) as (A & B & C & D).
+  pose proof (kfold_spec root (keep_name root newv) NU newv []) as K. rewrite <- keep_old_kfold in K.
+  assert (P3 : forall n p v0, In (n, (p, v0)) root -> In p (map fst newv) ->
+                  cfg_get c' n = Some (if mem (p, v0) newv then (p, v0) else (p, highest_of newv p))).
+  { intros n p v0 Hr Hp. apply B. apply K. left.
+    apply in_map_iff in Hp. destruct Hp as ([q w] & E & Hw). simpl in E. subst q.
+    exists (p, w). splits; auto; try apply (NE (p, w) Hw).
+    - simpl. eapply in_names_of; eauto.
+    - simpl. unfold keep_name. now rewrite (nodup_In_get root n (p, v0) NU Hr). }
+  splits; auto.
+  - intros x Hx. apply in_map_iff in Hx. destruct Hx as ([n y] & E & Hy). simpl in E. subst y.
+    apply (cfg_In_get c' n x A) in Hy. destruct (C n x Hy) as [X|(X & _)]; auto.
+    apply K in X. destruct X as [(v & Hv & Hne & Hn & ->)|(X & _)]; [|discriminate].
+    apply names_of_entry in Hn. destruct Hn as (v0 & Hn).
+    destruct (keep_name_cases root newv n (fst v) v0 NU Hn) as [[I ->]|[I ->]]; auto.
+    destruct v as [p w]. simpl. eapply highest_of_in; eauto.
+  - intros n [p v0] Hr Hx. rewrite (P3 n p v0 Hr) by (apply (in_map fst _ (p, v0)); auto).
+    assert (mem (p, v0) newv = true) as -> by (now apply mem_In). reflexivity.
+Qed.
+
+(** get's early returns hand the root's own requirement list back, possibly with one requirement on a new path in
+    front: the old configuration is kept as it is (whatever versions its aliases carry) *)
+Corollary transform_spec_unmerged U root (tx : list node -> outcome (list node)) c' extra :
+  names_unique root -> (forall x, In x (extra ++ map snd root) -> fst x <> []) ->
+  (forall x, In x extra -> names_of root (fst x) = []) ->
+  tx (map snd root) = Ok (extra ++ map snd root) -> transform_reqs U root tx = Ok c' ->
+  csorted c' /\ same_set (map snd c') (extra ++ map snd root) /\
+  (forall n x, In (n, x) root -> cfg_get c' n = Some x).
+Proof.
+  intros NU NE EX Etx H.
+  destruct (transform_spec_any U root tx c' _ NU NE Etx H) as (A & B & _ & D & F).
+  assert (OLD : forall n x, In (n, x) root -> cfg_get c' n = Some x).
+  { intros n x Hr. apply D; auto. apply in_app_iff. right. now apply (in_map snd _ (n, x)). }
+  splits; auto. intros x. split; [apply B|]. intros Hx. apply in_app_iff in Hx. destruct Hx as [Hx|Hx].
+  - destruct (F x) as (n & Hn & _); [apply in_app_iff; auto | auto |].
+    apply (cfg_In_get c' n x A) in Hn. now apply (in_map snd _ (n, x)).
+  - apply in_map_iff in Hx. destruct Hx as ([n y] & E & Hy). simpl in E. subst y.
+    pose proof (OLD n x Hy) as G. apply (cfg_In_get c' n x A) in G. now apply (in_map snd _ (n, x)).
+Qed.
+
+(** the bindings of the old names do not depend on the order in which the computed list is scanned *)
+Lemma csorted_ext_get (a b : config) : csorted a -> csorted b ->
+  (forall n, cfg_get a n = cfg_get b n) -> a = b.
+Proof.
+  unfold csorted. revert b. induction a as [|[k w] a IH]; intros b SA SB E.
+  - destruct b as [|[k' w'] b]; auto. specialize (E k'). simpl in E. rewrite str_eqb_refl in E. discriminate.
+  - destruct b as [|[k' w'] b].
+    + specialize (E k). simpl in E. rewrite str_eqb_refl in E. discriminate.
+    + apply StronglySorted_inv in SA, SB. destruct SA as [SA FA], SB as [SB FB].
+      rewrite Forall_forall in FA, FB.
+      assert (HA : forall n x, In (n, x) a -> str_ltb k n = true) by (intros n x Hx; apply (FA _ Hx)).
+      assert (HB : forall n x, In (n, x) b -> str_ltb k' n = true) by (intros n x Hx; apply (FB _ Hx)).
+      assert (k = k').
+      { pose proof (E k) as E1. pose proof (E k') as E2. simpl in E1, E2. rewrite !str_eqb_refl in *.
+        destruct (str_eqb_spec k' k); [auto|]. destruct (str_eqb_spec k k'); [auto|].
+        symmetry in E1. apply cfg_get_In in E1. apply cfg_get_In in E2.
+        pose proof (HB _ _ E1) as L1. pose proof (HA _ _ E2) as L2.
+        rewrite (str_ltb_asym _ _ L1) in L2. discriminate. }
+      subst k'. pose proof (E k) as E1. simpl in E1. rewrite !str_eqb_refl in E1. inversion E1; subst w'.
+      f_equal. apply IH; auto. intros n. specialize (E n). simpl in E.
+      destruct (str_eqb_spec k n); [|auto]. subst n.
+      destruct (cfg_get a k) eqn:GA.
+      { apply cfg_get_In in GA. apply HA in GA. now rewrite str_ltb_irrefl in GA. }
+      destruct (cfg_get b k) eqn:GB; auto.
+      apply cfg_get_In in GB. apply HB in GB. now rewrite str_ltb_irrefl in GB.
+Qed.
+
+Lemma highest_of_perm l l' p : (forall x, In x l -> exists s, snd x = VSem s) -> Permutation l l' ->
+  highest_of l p = highest_of l' p.
+Proof.
+  intros WF P. unfold highest_of.
+  assert (WF' : forall x, In x l' -> exists s, snd x = VSem s).
+  { intros x Hx. apply WF. eapply Permutation_in; [apply Permutation_sym; exact P | exact Hx]. }
+  destruct (highest_from p l None) as [h|] eqn:E.
+  - apply (highest_spec p l h WF) in E. destruct E as [E1 E2].
+    assert (E' : highest_from p l' None = Some h).
+    { apply (highest_spec p l' h WF'). split; [eapply Permutation_in; eauto|].
+      intros v Hv. apply E2. eapply Permutation_in; [apply Permutation_sym; exact P | exact Hv]. }
+    now rewrite E'.
+  - destruct (highest_from p l' None) as [h'|] eqn:E'; auto.
+    apply (highest_spec p l' h' WF') in E'. destruct E' as [E1 _].
+    exfalso. eapply (highest_from_present p l h'); [|exact E].
+    eapply Permutation_in; [apply Permutation_sym; exact P | exact E1].
+Qed.
+
+Theorem keep_old_order_independent root newv newv' :
+  names_unique root -> (forall x, In x newv -> exists s, snd x = VSem s) -> Permutation newv newv' ->
+  keep_old root newv = keep_old root newv'.
+Proof.
+  intros NU WF P. apply csorted_ext_get; try apply keep_old_csorted.
+  assert (KN : forall p n, keep_name root newv p n = keep_name root newv' p n).
+  { intros p n. unfold keep_name. rewrite (highest_of_perm newv newv' p WF P).
+    destruct (cfg_get root n) as [old|]; auto.
+    assert (mem old newv = mem old newv') as ->; auto.
+    destruct (mem old newv) eqn:M1, (mem old newv') eqn:M2; auto.
+    - apply mem_In in M1. apply mem_false in M2. exfalso. apply M2. eapply Permutation_in; eauto.
+    - apply mem_In in M2. apply mem_false in M1. exfalso. apply M1.
+      eapply Permutation_in; [apply Permutation_sym; exact P | exact M2]. }
+  intros n.
+  pose proof (kfold_spec root (keep_name root newv) NU newv [] n) as K1. rewrite <- keep_old_kfold in K1.
+  pose proof (kfold_spec root (keep_name root newv') NU newv' [] n) as K2. rewrite <- keep_old_kfold in K2.
+  assert (T : forall x, cfg_get (keep_old root newv) n = Some x <-> cfg_get (keep_old root newv') n = Some x).
+  { intros x. rewrite K1, K2. split.
+    - intros [(v & Hv & A & B & C)|(X & _)]; [|discriminate]. left. exists v. splits; auto.
+      + eapply Permutation_in; eauto.
+      + now rewrite <- KN.
+    - intros [(v & Hv & A & B & C)|(X & _)]; [|discriminate]. left. exists v. splits; auto.
+      + eapply Permutation_in; [apply Permutation_sym; exact P | exact Hv].
+      + now rewrite KN. }
+  destruct (cfg_get (keep_old root newv) n) as [x|] eqn:G1.
+  - symmetry. now apply T.
+  - destruct (cfg_get (keep_old root newv') n) as [x|] eqn:G2; auto. pose proof (proj2 (T x) eq_refl) as X. discriminate.
 Qed.
